@@ -5,6 +5,16 @@ import json, subprocess, os
 ROOT = os.path.dirname(os.path.abspath(__file__))
 
 CHECKS = {
+ "C04": dict(
+  technique="exhaustive callee x argument-count matrix and return-skeleton decision-tree walk + rapid return skeletons and closure call histories, oracle = independent reference evaluator (activations, closures by reference), compared after every step",
+  text="Every callee form (functions of 0-3 parameters, built-ins, every non-callable kind, calls through variables/arrays/properties) x 0-4 arguments; recursion templates (direct, mutual, self-application, through loops) to depth 200; every function body the skeleton generator derives (returns at every nesting depth of block/if/else/while/for with code after them) within a construct bound, plus random larger ones; random histories that create 1-3 instances of a counter factory and interleave calls on sibling closures reached through variables, arrays, properties and fresh calls. The complete stdout, outcome and diagnostic line are compared with the reference evaluator. Exploration.",
+  note="Trusted: the reference evaluator. Outside the generators (undocumented): local declaration named like its function, break/continue escaping a function body, redeclaring a function name.",
+  ref="4 C04"),
+ "C05": dict(
+  technique="complete walk of the control-skeleton generator's decision tree (small scope) + rapid random skeletons, oracle = reference evaluator on the full trace of printed points; stray-signal matrix",
+  text="Programs nest if/else, while, for (all clause combinations, with tagged probes making initialiser/condition/body/increment order visible), blocks, break and continue; every loop owns a counter so every program terminates. Every skeleton derivable with <=2 (quick) / <=3 (thorough) constructs is executed, plus random skeletons up to 25 constructs; the complete trace, outcome class, diagnostic kind and line are compared with the reference evaluator; stray break/continue/return at top level (bare, in blocks, in if arms) must be runtime errors naming their line. Exploration.",
+  note="Trusted: the reference evaluator. Conditions range over every truthy/falsy constant kind.",
+  ref="4 C05"),
  "C02": dict(
   technique="exhaustive operator x operand-producer matrix + rapid nested expressions, oracle = independent reference evaluator (IEEE double arithmetic, exact-rational modulo, big-integer powers, 64-bit bitwise), equality laws checked relationally",
   text="Every binary operator x every ordered pair of 48 operand producers (all value kinds; boundary magnitudes +-0, 0.5, 63/64/65, 2^31, 2^53, 2^63, 1e308, +-Inf, NaN; integer-typed bitwise results; numeric-looking strings) and every unary operator x producer is run through the real interpreter and compared with the reference evaluator on stdout, outcome class and diagnostic line; symmetry/negation/reflexivity of == and != are checked on every unordered pair without the model; random nested expressions to depth 5 over the pool and random doubles. Exploration: the matrix is exhaustive, nesting is sampled.",
